@@ -108,6 +108,14 @@ Theorem C03_inclusion_refuted_for_open_types :
   spec_word_rejected "MT101" ["20"; "28D"; "50C"; "50F"; "30"; "21"; "32B"; "59"; "71A"].
 Proof. vm_compute. repeat split; try reflexivity; eexists; reflexivity. Qed.
 
+(* MT204 (open): the layout reads field 19 before field 20, the specification has 20 first: every good text of the
+   specification is rejected, not only the witness above *)
+Theorem C03_mt204_rejects_every_word_of_its_specification : forall L alts,
+  lookup (bs "MT204") all_layouts = Some L -> lookup (bs "MT204") specs = Some alts ->
+  forall fparse toks, spec_lang alts (map fst toks) -> Forall (good_token fparse L) toks ->
+  forall f, lsize L + List.length toks + 1 <= f -> exists e, trun fparse f L toks = Reject e.
+Proof. exact mt204_rejects_its_specification. Qed.
+
 Print Assumptions C03_structure_decides_partial.
 Print Assumptions C03_accepted_is_reproduced.
 Print Assumptions C03_accepted_is_reproduced_bytes.
@@ -116,3 +124,4 @@ Print Assumptions C03_analysis_is_sound.
 Print Assumptions C03_specification_membership.
 Print Assumptions C03_inclusion_refuted_for_open_types.
 Print Assumptions C03_restricted_specification_is_accepted.
+Print Assumptions C03_mt204_rejects_every_word_of_its_specification.
